@@ -15,7 +15,7 @@ def run(tier):
     rnd = random.Random(common.seed() + 11)
     n = 120 if tier == 'quick' else 2500
     jobs = []
-    for k, j in enumerate(ec.random_jobs(rnd, n, label='stop', gen_kw=dict(p_cmd=0.05, p_sub=0.3, p_items=0.1))):
+    for k, j in enumerate(ec.random_jobs(rnd, n, label='stop', gen_kw=dict(p_cmd=0.08, p_sub=0.3, p_items=0.1, cmds=['fail', 'succeed', 'noop', 'pause', 'pause']))):
         at = rnd.randint(1, 30)
         st = ['ERROR', 'CANCELLED', 'SUCCESS'][k % 3]
         j['ops'] = [dict(at=at, op='stop', state=st, msg='halt-%d' % k)]
@@ -27,6 +27,14 @@ def run(tier):
             jj = dict(j)
             jj['ops'] = [dict(at=at, op='stop', state=['ERROR', 'CANCELLED', 'SUCCESS'][at % 3], msg='halt')]
             jobs.append(jj)
+    # the pause command leaves commands in the backlog: stop at every point around it, late results afterwards
+    from harness import gen
+    pb = dict(gen.catalogue())['cmd_pause_backlog']
+    for sch in ('default', 'legacy'):
+        for at in range(2, 16):
+            for st in (('CANCELLED', 'ERROR') if at % 2 else ('CANCELLED',)):
+                jobs.append(dict(prog=pb, scheduler=sch, policy=('random', 'starve_ptq', 'results_first', 'lifo')[at % 4], seed=at, label='pause_backlog',
+                                 ops=[dict(at=at, op='stop', state=st, msg='halt')]))
     return ec.run_property(PID, tier, jobs,
                            'generated programs stopped with ERROR / CANCELLED / SUCCESS at a random step (some while PAUSED), results still '
                            'in flight delivered afterwards; non-trivial = distinct runs with an acknowledged stop',
